@@ -468,8 +468,10 @@ Proof.
       unfold aset. apply okspans_cons; [apply okspans_aremove; auto | exact Hsp].
     + inversion X; subst. simpl in Vf1. fin.
     + destruct (find_local l (th_scoped th)) as [[hh|]|]; try discriminate.
-      destruct (s_with_props (s_dbg s) (th_stack th) hh ps) as [st1|] eqn:W; [|discriminate].
-      pose proof (s_with_props_ok _ _ _ _ _ Vst W) as Hst1. inversion X; subst. fin.
+      destruct (s_is_recording (th_stack th) hh).
+      * destruct (s_with_props (s_dbg s) (th_stack th) hh ps) as [st1|] eqn:W; [|discriminate].
+        pose proof (s_with_props_ok _ _ _ _ _ Vst W) as Hst1. inversion X; subst. fin.
+      * inversion X; subst. fin.
     + destruct (s_add_props (th_stack th) ps e) as [st1 e1] eqn:A.
       pose proof (s_add_props_ok' _ _ _ _ _ Vst A) as Hst1. inversion X; subst. fin.
   - (* adapter new *)
